@@ -41,9 +41,9 @@ TARGETS = {
     "evaluation/metrics/tracking/clear.py": ["C05", "C13"],
     "evaluation/metrics/tracking/tracking_metrics_score.py": ["C05", "C13"],
     "evaluation/metrics/metrics.py": ["C13", "C04", "C05"],
-    "evaluation/result/perception_frame_result.py": ["C03", "C13", "C05", "C07"],
+    "evaluation/result/perception_frame_result.py": ["C03", "C13", "C10", "C19", "C05", "C07"],
     "evaluation/result/perception_pass_fail_result.py": ["C03", "C08", "C07"],
-    "manager/perception_evaluation_manager.py": ["C13", "C05", "C03", "C07"],
+    "manager/perception_evaluation_manager.py": ["C13", "C10", "C05", "C03", "C07"],
     "manager/_evaluation_manager_base.py": ["C17", "C13"],
     "common/dataset.py": ["C17", "C16", "C10"],
     "common/geometry.py": ["C17", "C10"],
@@ -76,7 +76,7 @@ def candidate_mutations(src):
             continue
         if in_doc or not st or st.startswith("#") or st.startswith(("import ", "from ", "def ", "class ", "@", "raise ", "assert ", "logging.", "logger.", "warnings.", "for ")):
             continue
-        if '"""' in st or "f\"" in st or "f'" in st:
+        if '"""' in st or "f\"" in st or "f'" in st or st.startswith(("str_ ", "target_str ")):
             continue
         code = line.split("#")[0]
         for pat, rep in SUBS:
